@@ -24,6 +24,7 @@ def jobs_for(rng, tier):
     jobs += ce.wide_batch_jobs(rng, 2 if tier == "quick" else 12)
     jobs += ce.huge_extent_jobs(rng, 1 if tier == "quick" else 6)
     jobs += ce.restart_wide_jobs(rng, 1 if tier == "quick" else 8)
+    jobs += ce.max_value_jobs(rng, 1 if tier == "quick" else 3)
     return jobs
 
 
